@@ -422,6 +422,14 @@ def _get_comp_cls_media(comp_cls: Type["Component"]) -> Any:
         if curr_cls in media_cache:
             continue
 
+        # The paths in `Media.js/css` are rewritten when a class is resolved (files that sit next to
+        # the component file). `Media` may be inherited, so resolve all classes in the MRO first. Otherwise
+        # the result would depend on whether `.media` or e.g. `.template` was accessed first.
+        for mro_cls in curr_cls.mro():
+            mro_comp_media: Optional[ComponentMedia] = getattr(mro_cls, "_component_media", None)
+            if mro_comp_media is not None and not mro_comp_media.resolved:
+                _resolve_media(mro_cls, mro_comp_media)
+
         # Prepare base classes
         media_input = getattr(curr_cls, "Media", None)
         media_extend = getattr(media_input, "extend", True)
